@@ -500,3 +500,203 @@ Proof.
   rewrite conv_full_cells. apply sumR_map_ext. intros ab _.
   rewrite (combined_sum m (bmask c)) by (intros p; apply (bmask_sub _ _ _ _ _ HB)). lra.
 Qed.
+
+(* ================================================================== 5. the theorems *)
+Lemma convolve_length c (img bimg : list R) : length (@convolve ROps c img bimg) = length img.
+Proof. unfold convolve. rewrite scatter_length. unfold zeros. apply repeat_length. Qed.
+Lemma no_blurring_as_convolve c (img : list R) : @convolve_no_blurring ROps c img = @convolve ROps c img [].
+Proof. unfold convolve, convolve_no_blurring, entries at 3. cbn [combine flat_map]. now rewrite app_nil_r. Qed.
+
+(* T1 *)
+Theorem convolve_is_conv_full m (K : RK) c (img bimg : list R) k :
+  rectb m = true -> @convolver_init ROps m K = Ok c ->
+  length img = length (unmasked m) -> length bimg = length (unmasked (bmask c)) -> (k < length (unmasked m))%nat ->
+  nth k (@convolve ROps c img bimg) 0%R =
+  @conv_full ROps (@combined ROps m (bmask c) img bimg) K (nth k (unmasked m) (0, 0)).
+Proof. intros R Hc Hl _ Hk. now apply convolve_core. Qed.
+
+Theorem convolve_eq_map m (K : RK) c (img bimg : list R) :
+  rectb m = true -> @convolver_init ROps m K = Ok c ->
+  length img = length (unmasked m) -> length bimg = length (unmasked (bmask c)) ->
+  @convolve ROps c img bimg = map (@conv_full ROps (@combined ROps m (bmask c) img bimg) K) (unmasked m).
+Proof.
+  intros R Hc Hl _. apply (nth_ext_len _ _ 0%R).
+  - now rewrite convolve_length, map_length.
+  - intros k Hk. rewrite convolve_length, Hl in Hk.
+    rewrite (nth_map_lt _ _ _ (0, 0)) by exact Hk. now apply convolve_core.
+Qed.
+
+(* T2 *)
+Theorem no_blurring_is_conv_of_masked_image m (K : RK) c (img : list R) k :
+  rectb m = true -> @convolver_init ROps m K = Ok c ->
+  length img = length (unmasked m) -> (k < length (unmasked m))%nat ->
+  nth k (@convolve_no_blurring ROps c img) 0%R =
+  @conv_full ROps (@combined ROps m (bmask c) img []) K (nth k (unmasked m) (0, 0)).
+Proof. intros. rewrite no_blurring_as_convolve. now apply convolve_core. Qed.
+
+Theorem no_blurring_eq_map m (K : RK) c (img : list R) :
+  rectb m = true -> @convolver_init ROps m K = Ok c -> length img = length (unmasked m) ->
+  @convolve_no_blurring ROps c img = map (@conv_full ROps (@combined ROps m (bmask c) img []) K) (unmasked m).
+Proof.
+  intros R Hc Hl. rewrite no_blurring_as_convolve. apply (nth_ext_len _ _ 0%R).
+  - now rewrite convolve_length, map_length.
+  - intros k Hk. rewrite convolve_length, Hl in Hk.
+    rewrite (nth_map_lt _ _ _ (0, 0)) by exact Hk. now apply convolve_core.
+Qed.
+
+(* ---- T3: the mapping matrix, column by column ---- *)
+Lemma upd_add_zero (l : list R) i : @upd_add ROps l i 0%R = l.
+Proof. revert i. induction l as [|x l IH]; intros [|i]; cbn; auto; f_equal; auto. lra. Qed.
+Lemma scatter_app (e1 e2 : list (nat * R)) init : @scatter ROps (e1 ++ e2) init = @scatter ROps e2 (@scatter ROps e1 init).
+Proof. unfold scatter. apply fold_left_app. Qed.
+Lemma scatter_zero_entries (es : list (nat * R)) : forall init, Forall (fun e => snd e = 0%R) es -> @scatter ROps es init = init.
+Proof.
+  induction es as [|[i v] es IH]; intros init H; [reflexivity|].
+  inversion H as [|? ? Hv Hes]; subst. cbn in Hv. subst v.
+  unfold scatter. cbn [fold_left fst snd]. rewrite upd_add_zero. now apply IH.
+Qed.
+(* skipping the entries equal to zero does not change the result: v * k = 0 *)
+Lemma scatter_nz (v : list R) frames init :
+  @scatter ROps (@entries_nz ROps v frames) init = @scatter ROps (@entries ROps v frames) init.
+Proof.
+  unfold entries_nz, entries. revert init.
+  generalize (@combine (T ROps) (list (nat * T ROps)) v frames). intros l.
+  induction l as [|[a fr] l IH]; intros init; [reflexivity|].
+  cbn [flat_map fst snd]. rewrite !scatter_app, IH. f_equal.
+  cbn [eqb ROps]. destruct (Reqb a (@zero ROps)) eqn:E; [|reflexivity].
+  apply Reqb_true in E. subst a. cbn [scatter fold_left]. symmetry. apply scatter_zero_entries.
+  apply Forall_forall. intros e He. apply in_map_iff in He. destruct He as [tk [<- _]]. cbn. unfold zero. cbn. lra.
+Qed.
+Lemma column_length (M : list (list R)) j : length (@column ROps M j) = length M.
+Proof. unfold column. apply map_length. Qed.
+Lemma map_nth_seq {B} (l : list B) d : map (fun r => nth r l d) (seq 0 (length l)) = l.
+Proof.
+  apply (nth_ext_len _ _ d).
+  - now rewrite map_length, seq_length.
+  - intros k Hk. rewrite map_length, seq_length in Hk.
+    rewrite (nth_map_lt _ _ _ 0%nat) by now rewrite seq_length. now rewrite seq_nth.
+Qed.
+
+Theorem convolve_matrix_columnwise c (M : list (list R)) j : (j < length (hd [] M))%nat ->
+  @column ROps (@convolve_matrix ROps c M) j = @convolve_no_blurring ROps c (@column ROps M j).
+Proof.
+  intros Hj. unfold convolve_matrix, convolve_no_blurring. cbv zeta. unfold column at 1. rewrite map_map.
+  rewrite <- scatter_nz. rewrite column_length.
+  set (F := fun j0 : nat => @scatter ROps (@entries_nz ROps (@column ROps M j0) (image_frames c)) (@zeros ROps (length M))).
+  assert (HL : length (F j) = length M).
+  { unfold F. rewrite scatter_length. unfold zeros. apply repeat_length. }
+  change (map (fun x : nat => nth j (map (fun col : list R => nth x col (@zero ROps)) (map F (seq 0 (length (hd [] M))))) (@zero ROps))
+            (seq 0 (length M)) = F j).
+  rewrite <- (map_nth_seq (F j) (@zero ROps)). rewrite HL. apply map_ext. intros r.
+  rewrite (nth_map_lt _ _ _ []) by now rewrite map_length, seq_length.
+  rewrite (nth_map_lt _ _ _ 0%nat) by now rewrite seq_length. now rewrite seq_nth.
+Qed.
+
+Theorem convolve_matrix_is_conv_full m (K : RK) c (M : list (list R)) j :
+  rectb m = true -> @convolver_init ROps m K = Ok c ->
+  length M = length (unmasked m) -> (j < length (hd [] M))%nat ->
+  @column ROps (@convolve_matrix ROps c M) j =
+  map (@conv_full ROps (@combined ROps m (bmask c) (@column ROps M j) []) K) (unmasked m).
+Proof.
+  intros R Hc Hl Hj. rewrite convolve_matrix_columnwise by exact Hj.
+  apply no_blurring_eq_map; auto. now rewrite column_length.
+Qed.
+
+(* ---- linearity ---- *)
+Lemma lookup_nil ps q : @lookup ROps ps [] q = 0%R.
+Proof. destruct ps; reflexivity. Qed.
+Lemma lookup_lincomb ps a b q : forall u v : list R, length u = length v ->
+  @lookup ROps ps (@lincomb ROps a u b v) q = (a * @lookup ROps ps u q + b * @lookup ROps ps v q)%R.
+Proof.
+  induction ps as [|p ps IH]; intros [|x u] [|y v] Hl; try discriminate Hl; cbn [lookup lincomb combine map].
+  - unfold zero; cbn; lra.
+  - unfold zero; cbn; lra.
+  - unfold zero; cbn; lra.
+  - cbn [fst snd]. destruct (px_eqb p q); [reflexivity|]. apply IH. cbn in Hl. lia.
+Qed.
+Lemma conv_full_linear (N N1 N2 : px -> R) a b (K : RK) t :
+  (forall q, N q = (a * N1 q + b * N2 q)%R) ->
+  @conv_full ROps N K t = (a * @conv_full ROps N1 K t + b * @conv_full ROps N2 K t)%R.
+Proof.
+  intros H. rewrite !conv_full_cells, <- !sumR_map_scal, <- sumR_map_add.
+  apply sumR_map_ext. intros ab _. rewrite H. lra.
+Qed.
+Lemma lincomb_length a b (u v : list R) : length u = length v -> length (@lincomb ROps a u b v) = length u.
+Proof. intros H. unfold lincomb. rewrite map_length, combine_length. cbn [T ROps] in *. lia. Qed.
+Lemma nth_lincomb a b : forall (u v : list R) k, length u = length v ->
+  nth k (@lincomb ROps a u b v) 0%R = (a * nth k u 0 + b * nth k v 0)%R.
+Proof.
+  induction u as [|x u IH]; intros [|y v] [|k] Hl; try discriminate Hl; cbn [lincomb combine map nth]; try lra.
+  - reflexivity.
+  - apply IH. cbn in Hl. lia.
+Qed.
+
+Theorem convolve_no_blurring_linear m (K : RK) c a b (u v : list R) :
+  rectb m = true -> @convolver_init ROps m K = Ok c ->
+  length u = length (unmasked m) -> length v = length (unmasked m) ->
+  @convolve_no_blurring ROps c (@lincomb ROps a u b v) =
+  @lincomb ROps a (@convolve_no_blurring ROps c u) b (@convolve_no_blurring ROps c v).
+Proof.
+  intros R Hc Hu Hv.
+  assert (Huv : length u = length v) by lia.
+  assert (Lc : forall w, length (@convolve_no_blurring ROps c w) = length w).
+  { intros w. rewrite no_blurring_as_convolve. apply convolve_length. }
+  apply (nth_ext_len _ _ 0%R).
+  - rewrite Lc, (lincomb_length a b u v Huv), lincomb_length, Lc; [reflexivity | rewrite !Lc; exact Huv].
+  - intros k Hk. rewrite Lc, lincomb_length, Hu in Hk by exact Huv.
+    rewrite nth_lincomb by (rewrite !Lc; exact Huv).
+    rewrite !(no_blurring_is_conv_of_masked_image m K c) by (auto; rewrite lincomb_length; auto).
+    apply conv_full_linear. intros q. unfold combined.
+    destruct (negb (mz m q)).
+    + now apply lookup_lincomb.
+    + rewrite !lookup_nil. lra.
+Qed.
+
+(* T4 *)
+Theorem outside_irrelevant m c (g1 g2 : list (list R)) :
+  (forall q, In q (unmasked m ++ unmasked (bmask c)) -> @img_fun ROps g1 q = @img_fun ROps g2 q) ->
+  @convolve ROps c (@slim_of ROps g1 (unmasked m)) (@slim_of ROps g1 (unmasked (bmask c))) =
+  @convolve ROps c (@slim_of ROps g2 (unmasked m)) (@slim_of ROps g2 (unmasked (bmask c))).
+Proof.
+  intros H. unfold slim_of. f_equal; apply map_ext_in; intros q Hq; apply H, in_app_iff; auto.
+Qed.
+
+(* ---- T5: construction errors ---- *)
+Theorem convolver_init_cases m (K : RK) :
+  match @convolver_init ROps m K with
+  | Raise e => if oddb (rows K) && oddb (cols K) then footprints_in m (rows K) (cols K) = false /\ e = MaskException
+               else e = KernelException
+  | Ok c => oddb (rows K) && oddb (cols K) = true /\ footprints_in m (rows K) (cols K) = true /\
+            n_image c = length (unmasked m) /\ length (blurring_frames c) = length (unmasked (bmask c))
+  end.
+Proof.
+  destruct (@convolver_init ROps m K) as [c|e] eqn:E.
+  - destruct (init_ok_inv m K c E) as [H1 [H2 [HB [_ [HBF HN]]]]]. rewrite H1, H2.
+    apply bmask_unfold in HB. rewrite HBF, map_length. tauto.
+  - unfold convolver_init in E. cbn [T ROps] in E. unfold oddb.
+    destruct ((rows K mod 2 =? 0) || (cols K mod 2 =? 0)) eqn:E2; cbv beta iota in E.
+    + replace (negb (rows K mod 2 =? 0) && negb (cols K mod 2 =? 0)) with false by lia. congruence.
+    + replace (negb (rows K mod 2 =? 0) && negb (cols K mod 2 =? 0)) with true by lia.
+      unfold blurring_mask in E. fold (footprints_in m (rows K) (cols K)) in E.
+      destruct (footprints_in m (rows K) (cols K)); cbv beta iota zeta in E; [discriminate E|].
+      split; congruence.
+Qed.
+Theorem even_kernel_rejected m (K : RK) :
+  @convolver_init ROps m K = Raise KernelException <-> (rows K mod 2 = 0 \/ cols K mod 2 = 0).
+Proof.
+  pose proof (convolver_init_cases m K) as H. unfold oddb in H. split.
+  - intros E. rewrite E in H.
+    destruct (negb (rows K mod 2 =? 0) && negb (cols K mod 2 =? 0)) eqn:E2; [destruct H; discriminate | lia].
+  - intros Hev. destruct (@convolver_init ROps m K) as [c|e].
+    + lia.
+    + replace (negb (rows K mod 2 =? 0) && negb (cols K mod 2 =? 0)) with false in H by lia. congruence.
+Qed.
+Theorem footprint_outside_rejected m (K : RK) : oddb (rows K) = true -> oddb (cols K) = true ->
+  (@convolver_init ROps m K = Raise MaskException <-> footprints_in m (rows K) (cols K) = false).
+Proof.
+  intros O1 O2. pose proof (convolver_init_cases m K) as H. rewrite O1, O2 in H. cbn [andb] in H. split.
+  - intros E. rewrite E in H. tauto.
+  - intros F. destruct (@convolver_init ROps m K) as [c|e].
+    + destruct H as [_ [H _]]. congruence.
+    + destruct H as [_ ->]. reflexivity.
+Qed.
